@@ -3,6 +3,7 @@ package main
 // Contract-expression builtins (spec mode).
 
 import (
+	"strconv"
 	"fmt"
 	"go/ast"
 	"go/token"
@@ -42,14 +43,16 @@ func (ec *evalCtx) specCall(call *ast.CallExpr) Value {
 		ec.pol = -ec.pol
 		a := ec.evalBool(call.Args[0])
 		ec.pol = -ec.pol
+		ngImp := len(ec.st.guards)
 		ec.st.guards = append(ec.st.guards, a)
 		// a consequent that mentions a ghost `let` / local that does not exist on this path
 		// means the defining point was not reached: the antecedent must then be false.
 		var b *Term
 		func() {
 			defer func() {
+				ec.st.guards = ec.st.guards[:ngImp] // also when the evaluation gives up
 				if r := recover(); r != nil {
-					if u, ok := r.(unsupportedErr); ok && ec.pol > 0 && (strings.Contains(u.msg, "unknown identifier") || strings.Contains(u.msg, "definitely nil")) {
+					if u, ok := r.(unsupportedErr); ok && ec.pol > 0 && (strings.Contains(u.msg, "unknown identifier") || strings.Contains(u.msg, "unknown ghost variable") || strings.Contains(u.msg, "definitely nil")) {
 						b = False
 						return
 					}
@@ -58,7 +61,6 @@ func (ec *evalCtx) specCall(call *ast.CallExpr) Value {
 			}()
 			b = ec.evalBool(call.Args[1])
 		}()
-		ec.st.guards = ec.st.guards[:len(ec.st.guards)-1]
 		return Implies(a, b)
 	case "iff":
 		need(2)
@@ -129,6 +131,46 @@ func (ec *evalCtx) specCall(call *ast.CallExpr) Value {
 	case "pos3":
 		need(3)
 		return &StructV{Names: []string{"Index", "Line", "Col"}, F: map[string]Value{"Index": arg(0), "Line": arg(1), "Col": arg(2)}}
+	case "uf":
+		// uf(name, args...): an uninterpreted specification function of the scalar leaves of its arguments - for ghost
+		// attributes of values that the code does not represent (e.g. "the Go code this generator output belongs to")
+		if len(call.Args) < 2 {
+			panic(unsupported("uf(name, args...)"))
+		}
+		lit, ok := call.Args[0].(*ast.BasicLit)
+		if !ok {
+			panic(unsupported("uf: first argument must be a string literal"))
+		}
+		nm, _ := strconv.Unquote(lit.Value)
+		var leaves []*Term
+		var flat func(v Value)
+		flat = func(v Value) {
+			switch x := v.(type) {
+			case *Term:
+				leaves = append(leaves, x)
+			case *StructV:
+				for _, n := range x.Names {
+					flat(x.F[n])
+				}
+			case *PtrV:
+				leaves = append(leaves, x.Nil, Int(int64(x.Obj)))
+			case *SliceV:
+				leaves = append(leaves, x.Len)
+				if x.Name != "" {
+					leaves = append(leaves, Var("slice:"+x.Name, SInt))
+				}
+			case *IfaceV:
+				leaves = append(leaves, x.Tag, x.Id)
+			}
+		}
+		for i := 1; i < len(call.Args); i++ {
+			flat(arg(i))
+		}
+		return App("uf:"+nm, SStr, leaves...)
+	case "unquoted":
+		// unquoted(x): the string strconv.Unquote(x) returns
+		need(1)
+		return App("strconv.Unquote", SStr, scalar(arg(0)))
 	case "errvar":
 		// errvar(): the variable named err if one is in scope (nil otherwise) - for clauses shared by many functions
 		need(0)
